@@ -1,0 +1,349 @@
+//go:build verif
+// +build verif
+
+// Contracts for the avc package (build tag verif; never compiled into the library).
+// Specification source: ISO/IEC 14496-10 7.3.1 (NAL unit syntax), ISO/IEC 14496-15 5.2.4.1.1
+// (AVCDecoderConfigurationRecord syntax), 5.3.4.2 (sample format), and the statement of C12.
+
+package avc
+
+import "bytes"
+
+func prim_sameslice(a, b []byte) bool {
+	return len(a) == len(b) && (len(a) == 0 || &a[0] == &b[0])
+}
+
+func prim_eqbytes(a, b []byte) bool { return bytes.Equal(a, b) }
+
+func prim_fresh(a []byte) bool { return true } // "allocated during the call"; not observable at run time
+
+// prim_forall(n, f): f(i) holds for every 0 <= i < n
+func prim_forall(n int, f func(i int) bool) bool {
+	for i := 0; i < n; i++ {
+		if !f(i) {
+			return false
+		}
+	}
+	return true
+}
+
+// ---------- NAL unit header: forbidden_zero_bit(1) nal_ref_idc(2) nal_unit_type(5) ----------
+
+func spec_wfHeader(h *NALUHeader) bool { return h != nil && h.NALRefIDC <= 3 && h.NALUType <= 31 }
+
+//@ requires (*NALUHeader).MarshalBinary
+func req_hdrMarshal(v *NALUHeader) bool { return spec_wfHeader(v) }
+
+//@ ensures (*NALUHeader).MarshalBinary C12.nalu.header.marshal
+func ens_hdrMarshal(v *NALUHeader, ret0 []byte, ret1 error) bool {
+	return ret1 == nil && len(ret0) == 1 && ret0[0]>>7 == 0 && (ret0[0]>>5)&3 == uint8(v.NALRefIDC) && ret0[0]&0x1f == uint8(v.NALUType) && prim_fresh(ret0)
+}
+
+// all 256 header bytes
+//@ ensures (*NALUHeader).UnmarshalBinary C12.nalu.header.unmarshal
+func ens_hdrUnmarshal(v *NALUHeader, data []byte, ret0 error) bool {
+	if len(data) < 1 {
+		return ret0 != nil
+	}
+	return ret0 == nil && uint8(v.NALRefIDC) == (data[0]>>5)&3 && uint8(v.NALUType) == data[0]&0x1f
+}
+
+//@ assigns (*NALUHeader).UnmarshalBinary v.*
+
+// ---------- NAL unit ----------
+
+func spec_wfNALU(n *NALU) bool { return n != nil && spec_wfHeader(n.NALUHeader) }
+
+//@ requires (*NALU).MarshalBinary
+func req_naluMarshal(v *NALU) bool { return spec_wfNALU(v) }
+
+//@ ensures (*NALU).MarshalBinary C12.nalu.marshal
+func ens_naluMarshal(v *NALU, ret0 []byte, ret1 error) bool {
+	if ret1 != nil || len(ret0) != 1+len(v.Data) {
+		return false
+	}
+	return ret0[0]>>7 == 0 && (ret0[0]>>5)&3 == uint8(v.NALRefIDC) && ret0[0]&0x1f == uint8(v.NALUType) && prim_eqbytes(ret0[1:], v.Data) && prim_fresh(ret0)
+}
+
+//@ requires (*NALU).UnmarshalBinary
+func req_naluUnmarshal(v *NALU) bool { return v.NALUHeader != nil }
+
+//@ ensures (*NALU).UnmarshalBinary C12.nalu.unmarshal
+func ens_naluUnmarshal(v *NALU, data []byte, ret0 error) bool {
+	if len(data) < 1 {
+		return ret0 != nil
+	}
+	return ret0 == nil && v.NALUHeader != nil && uint8(v.NALRefIDC) == (data[0]>>5)&3 && uint8(v.NALUType) == data[0]&0x1f && prim_sameslice(v.Data, data[1:])
+}
+
+//@ assigns (*NALU).UnmarshalBinary v.Data, v.NALUHeader.*
+
+// unmarshal(marshal(n)) == n, marshal(unmarshal(b)) == b (NAL units of 1..65535 bytes and beyond)
+//@ requires lemma_C12_naluRoundtrip
+func req_lemma_nalu(n *NALU) bool { return spec_wfNALU(n) }
+
+//@ lemma C12.nalu.roundtrip
+func lemma_C12_naluRoundtrip(n *NALU) bool {
+	b, err := n.MarshalBinary()
+	if err != nil {
+		return false
+	}
+	m := NewNALU()
+	if err = m.UnmarshalBinary(b); err != nil {
+		return false
+	}
+	return m.NALRefIDC == n.NALRefIDC && m.NALUType == n.NALUType && prim_eqbytes(m.Data, n.Data)
+}
+
+//@ lemma C12.nalu.roundtrip-bytes
+func lemma_C12_naluRoundtripBytes(b []byte) bool {
+	m := NewNALU()
+	if err := m.UnmarshalBinary(b); err != nil {
+		return len(b) == 0
+	}
+	out, err := m.MarshalBinary()
+	if err != nil {
+		return false
+	}
+	// the forbidden_zero_bit is not kept: canonical encodings have it clear
+	return len(out) == len(b) && out[0] == b[0]&0x7f && prim_eqbytes(out[1:], b[1:])
+}
+
+// ---------- AVCDecoderConfigurationRecord ----------
+
+func spec_wfList(l []*NALU) bool {
+	return prim_forall(len(l), func(i int) bool { return spec_wfNALU(l[i]) && 1+len(l[i].Data) <= 65535 })
+}
+
+// the records of the statement: NAL length size 1..4, up to 31 SPS and 255 PPS of 1..65535 bytes
+func spec_wfRecord(v *AVCDecoderConfigurationRecord) bool {
+	return v.AVCProfileIndication <= 255 && v.LengthSizeMinusOne <= 3 &&
+		len(v.SequenceParameterSetNALUnits) <= 31 && len(v.PictureParameterSetNALUnits) <= 255 &&
+		spec_wfList(v.SequenceParameterSetNALUnits) && spec_wfList(v.PictureParameterSetNALUnits)
+}
+
+//@ requires (*AVCDecoderConfigurationRecord).MarshalBinary
+func req_recMarshal(v *AVCDecoderConfigurationRecord) bool { return spec_wfRecord(v) }
+
+// configurationVersion(8) AVCProfileIndication(8) profile_compatibility(8) AVCLevelIndication(8)
+// reserved '111111'b lengthSizeMinusOne(2) reserved '111'b numOfSequenceParameterSets(5) ...
+//@ ensures (*AVCDecoderConfigurationRecord).MarshalBinary C12.record.fixed
+func ens_recMarshal_fixed(v *AVCDecoderConfigurationRecord, ret0 []byte, ret1 error) bool {
+	if ret1 != nil || len(ret0) < 7 {
+		return false
+	}
+	return ret0[0] == v.configurationVersion && ret0[1] == uint8(v.AVCProfileIndication) && ret0[2] == v.profileCompatibility &&
+		ret0[3] == uint8(v.AVCLevelIndication) && ret0[4] == 0xfc|v.LengthSizeMinusOne && ret0[5] == 0xe0|uint8(len(v.SequenceParameterSetNALUnits))
+}
+
+//@ invariant (*AVCDecoderConfigurationRecord).MarshalBinary 0
+func inv_recMarshal0(v *AVCDecoderConfigurationRecord, buf *bytes.Buffer) bool {
+	b := buf.Bytes()
+	return spec_wfRecord(v) && len(b) >= 6 && b[0] == v.configurationVersion && b[1] == uint8(v.AVCProfileIndication) && b[2] == v.profileCompatibility &&
+		b[3] == uint8(v.AVCLevelIndication) && b[4] == 0xfc|v.LengthSizeMinusOne && b[5] == 0xe0|uint8(len(v.SequenceParameterSetNALUnits))
+}
+
+//@ invariant (*AVCDecoderConfigurationRecord).MarshalBinary 1
+func inv_recMarshal1(v *AVCDecoderConfigurationRecord, buf *bytes.Buffer) bool {
+	b := buf.Bytes()
+	return spec_wfRecord(v) && len(b) >= 7 && b[0] == v.configurationVersion && b[1] == uint8(v.AVCProfileIndication) && b[2] == v.profileCompatibility &&
+		b[3] == uint8(v.AVCLevelIndication) && b[4] == 0xfc|v.LengthSizeMinusOne && b[5] == 0xe0|uint8(len(v.SequenceParameterSetNALUnits))
+}
+
+//@ decreases (*AVCDecoderConfigurationRecord).UnmarshalBinary 0
+func dec_recUnmarshal0(i int, numOfSequenceParameterSets uint8) int { return int(numOfSequenceParameterSets) - i }
+
+//@ decreases (*AVCDecoderConfigurationRecord).UnmarshalBinary 1
+func dec_recUnmarshal1(i int, numOfPictureParameterSets uint8) int { return int(numOfPictureParameterSets) - i }
+
+// after a successful decode the fixed fields are the record's bytes and the list lengths are the count fields
+//@ ensures (*AVCDecoderConfigurationRecord).UnmarshalBinary C12.record.unmarshal.fixed
+func ens_recUnmarshal_fixed(v *AVCDecoderConfigurationRecord, data []byte, ret0 error) bool {
+	if ret0 != nil {
+		return true
+	}
+	return len(data) >= 6 && v.configurationVersion == data[0] && uint8(v.AVCProfileIndication) == data[1] && v.AVCProfileIndication <= 255 &&
+		v.profileCompatibility == data[2] && uint8(v.AVCLevelIndication) == data[3] && v.LengthSizeMinusOne == data[4]&3
+}
+
+//@ ensures (*AVCDecoderConfigurationRecord).UnmarshalBinary C12.record.unmarshal.sps-count
+func ens_recUnmarshal_spsCount(v *AVCDecoderConfigurationRecord, old_v AVCDecoderConfigurationRecord, data []byte, ret0 error) bool {
+	if ret0 != nil {
+		return true
+	}
+	return len(data) >= 6 && len(v.SequenceParameterSetNALUnits) == len(old_v.SequenceParameterSetNALUnits)+int(data[5]&0x1f)
+}
+
+//@ invariant (*AVCDecoderConfigurationRecord).UnmarshalBinary 0
+func inv_recUnmarshal0(v *AVCDecoderConfigurationRecord, old_v AVCDecoderConfigurationRecord, data []byte, i int, numOfSequenceParameterSets uint8) bool {
+	return i >= 0 && i <= int(numOfSequenceParameterSets) && len(data) >= 6 && numOfSequenceParameterSets == data[5]&0x1f &&
+		len(v.SequenceParameterSetNALUnits) == len(old_v.SequenceParameterSetNALUnits)+i &&
+		v.configurationVersion == data[0] && uint8(v.AVCProfileIndication) == data[1] && v.AVCProfileIndication <= 255 &&
+		v.profileCompatibility == data[2] && uint8(v.AVCLevelIndication) == data[3] && v.LengthSizeMinusOne == data[4]&3
+}
+
+//@ invariant (*AVCDecoderConfigurationRecord).UnmarshalBinary 1
+func inv_recUnmarshal1(v *AVCDecoderConfigurationRecord, old_v AVCDecoderConfigurationRecord, data []byte, i int, numOfPictureParameterSets uint8) bool {
+	return i >= 0 && i <= int(numOfPictureParameterSets) && len(data) >= 6 &&
+		len(v.SequenceParameterSetNALUnits) == len(old_v.SequenceParameterSetNALUnits)+int(data[5]&0x1f) &&
+		v.configurationVersion == data[0] && uint8(v.AVCProfileIndication) == data[1] && v.AVCProfileIndication <= 255 &&
+		v.profileCompatibility == data[2] && uint8(v.AVCLevelIndication) == data[3] && v.LengthSizeMinusOne == data[4]&3
+}
+
+//@ assigns (*AVCDecoderConfigurationRecord).UnmarshalBinary v.*, v.SequenceParameterSetNALUnits[*], v.PictureParameterSetNALUnits[*]
+
+// ---------- bounded stand-ins for the list-level round trips (children of any size) ----------
+
+// record with 2 SPS and 1 PPS: exact ISO layout and round trip
+//@ requires lemma_C12_recordRoundtrip_2_1
+func req_lemma_rec21(s0, s1, p0 *NALU) bool {
+	return spec_wfNALU(s0) && spec_wfNALU(s1) && spec_wfNALU(p0) && 1+len(s0.Data) <= 65535 && 1+len(s1.Data) <= 65535 && 1+len(p0.Data) <= 65535
+}
+
+//@ bounded lemma_C12_recordRoundtrip_2_1 4
+//@ thorough lemma_C12_recordRoundtrip_2_1
+//@ lemma C12.record.roundtrip.bounded
+func lemma_C12_recordRoundtrip_2_1(profile, compat, level, lsm1 uint8, s0, s1, p0 *NALU) bool {
+	r := NewAVCDecoderConfigurationRecord()
+	r.AVCProfileIndication, r.profileCompatibility, r.AVCLevelIndication, r.LengthSizeMinusOne = AVCProfile(profile), compat, AVCLevel(level), lsm1&3
+	r.SequenceParameterSetNALUnits = []*NALU{s0, s1}
+	r.PictureParameterSetNALUnits = []*NALU{p0}
+	b, err := r.MarshalBinary()
+	if err != nil {
+		return false
+	}
+	// ISO layout
+	n0, n1, m0 := 1+len(s0.Data), 1+len(s1.Data), 1+len(p0.Data)
+	if len(b) != 6+2+n0+2+n1+1+2+m0 {
+		return false
+	}
+	if b[0] != 1 || b[1] != profile || b[2] != compat || b[3] != level || b[4] != 0xfc|lsm1&3 || b[5] != 0xe0|2 {
+		return false
+	}
+	if int(b[6])<<8|int(b[7]) != n0 || int(b[8+n0])<<8|int(b[9+n0]) != n1 || b[10+n0+n1] != 1 || int(b[11+n0+n1])<<8|int(b[12+n0+n1]) != m0 {
+		return false
+	}
+	q := NewAVCDecoderConfigurationRecord()
+	if err = q.UnmarshalBinary(b); err != nil {
+		return false
+	}
+	if q.AVCProfileIndication != r.AVCProfileIndication || q.profileCompatibility != compat || q.AVCLevelIndication != r.AVCLevelIndication || q.LengthSizeMinusOne != lsm1&3 {
+		return false
+	}
+	if len(q.SequenceParameterSetNALUnits) != 2 || len(q.PictureParameterSetNALUnits) != 1 {
+		return false
+	}
+	t0, t1, u0 := q.SequenceParameterSetNALUnits[0], q.SequenceParameterSetNALUnits[1], q.PictureParameterSetNALUnits[0]
+	return t0.NALRefIDC == s0.NALRefIDC && t0.NALUType == s0.NALUType && prim_eqbytes(t0.Data, s0.Data) &&
+		t1.NALRefIDC == s1.NALRefIDC && t1.NALUType == s1.NALUType && prim_eqbytes(t1.Data, s1.Data) &&
+		u0.NALRefIDC == p0.NALRefIDC && u0.NALUType == p0.NALUType && prim_eqbytes(u0.Data, p0.Data)
+}
+
+// sample with 2 NAL units, for each NAL length size: big-endian length prefixes and round trip
+func spec_sampleFits(lsm1 uint8, n0, n1 *NALU) bool {
+	if !(lsm1 <= 3 && spec_wfNALU(n0) && spec_wfNALU(n1)) {
+		return false
+	}
+	lim := uint64(1) << (8 * (uint(lsm1) + 1))
+	return uint64(1+len(n0.Data)) < lim && uint64(1+len(n1.Data)) < lim
+}
+
+//@ requires lemma_C12_sampleRoundtrip_size1
+func req_lemma_sample_1(n0, n1 *NALU) bool { return spec_sampleFits(0, n0, n1) }
+
+//@ bounded lemma_C12_sampleRoundtrip_size1 6
+//@ thorough lemma_C12_sampleRoundtrip_size1
+//@ lemma C12.sample.roundtrip.bounded
+func lemma_C12_sampleRoundtrip_size1(n0, n1 *NALU) bool { return spec_sampleRoundtrip2(0, n0, n1) }
+
+//@ requires lemma_C12_sampleRoundtrip_size2
+func req_lemma_sample_2(n0, n1 *NALU) bool { return spec_sampleFits(1, n0, n1) }
+
+//@ bounded lemma_C12_sampleRoundtrip_size2 6
+//@ thorough lemma_C12_sampleRoundtrip_size2
+//@ lemma C12.sample.roundtrip.bounded
+func lemma_C12_sampleRoundtrip_size2(n0, n1 *NALU) bool { return spec_sampleRoundtrip2(1, n0, n1) }
+
+//@ requires lemma_C12_sampleRoundtrip_size3
+func req_lemma_sample_3(n0, n1 *NALU) bool { return spec_sampleFits(2, n0, n1) }
+
+//@ bounded lemma_C12_sampleRoundtrip_size3 6
+//@ thorough lemma_C12_sampleRoundtrip_size3
+//@ lemma C12.sample.roundtrip.bounded
+func lemma_C12_sampleRoundtrip_size3(n0, n1 *NALU) bool { return spec_sampleRoundtrip2(2, n0, n1) }
+
+//@ requires lemma_C12_sampleRoundtrip_size4
+func req_lemma_sample_4(n0, n1 *NALU) bool { return spec_sampleFits(3, n0, n1) }
+
+//@ bounded lemma_C12_sampleRoundtrip_size4 6
+//@ thorough lemma_C12_sampleRoundtrip_size4
+//@ lemma C12.sample.roundtrip.bounded
+func lemma_C12_sampleRoundtrip_size4(n0, n1 *NALU) bool { return spec_sampleRoundtrip2(3, n0, n1) }
+
+func spec_sampleRoundtrip2(lsm1 uint8, n0, n1 *NALU) bool {
+	s := NewAVCSample(lsm1)
+	s.NALUs = []*NALU{n0, n1}
+	b, err := s.MarshalBinary()
+	if err != nil {
+		return false
+	}
+	size := int(lsm1) + 1
+	l0, l1 := 1+len(n0.Data), 1+len(n1.Data)
+	if len(b) != size+l0+size+l1 {
+		return false
+	}
+	// 5.3.4.2: NALUnitLength is a big-endian unsigned integer of lengthSizeMinusOne+1 bytes
+	var p0, p1 uint64
+	for i := 0; i < size; i++ {
+		p0 = p0<<8 | uint64(b[i])
+		p1 = p1<<8 | uint64(b[size+l0+i])
+	}
+	if p0 != uint64(l0) || p1 != uint64(l1) {
+		return false
+	}
+	q := NewAVCSample(lsm1)
+	if err = q.UnmarshalBinary(b); err != nil {
+		return false
+	}
+	if len(q.NALUs) != 2 {
+		return false
+	}
+	return q.NALUs[0].NALRefIDC == n0.NALRefIDC && q.NALUs[0].NALUType == n0.NALUType && prim_eqbytes(q.NALUs[0].Data, n0.Data) &&
+		q.NALUs[1].NALRefIDC == n1.NALRefIDC && q.NALUs[1].NALUType == n1.NALUType && prim_eqbytes(q.NALUs[1].Data, n1.Data)
+}
+
+// ---------- AVCSample: unbounded safety and termination of the decoder ----------
+
+//@ requires (*AVCSample).UnmarshalBinary
+func req_sampleUnmarshal(v *AVCSample) bool { return v.lengthSizeMinusOne <= 3 }
+
+//@ invariant (*AVCSample).UnmarshalBinary 0
+func inv_sampleUnmarshal0(v *AVCSample, sizeOfNALU int) bool {
+	return v.lengthSizeMinusOne <= 3 && sizeOfNALU == int(v.lengthSizeMinusOne)+1
+}
+
+//@ decreases (*AVCSample).UnmarshalBinary 0
+func dec_sampleUnmarshal0(b []byte) int { return len(b) }
+
+//@ invariant (*AVCSample).UnmarshalBinary 1
+func inv_sampleUnmarshal1(v *AVCSample, sizeOfNALU int, b []byte, i int, length uint64) bool {
+	return v.lengthSizeMinusOne <= 3 && sizeOfNALU == int(v.lengthSizeMinusOne)+1 && i >= 0 && i <= sizeOfNALU && len(b) >= sizeOfNALU &&
+		length < 1<<32
+}
+
+//@ decreases (*AVCSample).UnmarshalBinary 1
+func dec_sampleUnmarshal1(sizeOfNALU int, i int) int { return sizeOfNALU - i }
+
+//@ assigns (*AVCSample).UnmarshalBinary v.NALUs, v.NALUs[*]
+// only inside the bounded stand-ins: the outer loop runs once per NAL unit (2) plus the exit test
+//@ unroll (*AVCSample).UnmarshalBinary 0 3
+
+// ---------- C07 ----------
+
+//@ safe NALUType.String C07
+//@ safe AVCProfile.String C07
+//@ safe AVCLevel.String C07
+//@ safe (*NALUHeader).UnmarshalBinary C07
+//@ safe (*NALU).UnmarshalBinary C07
+//@ safe (*AVCDecoderConfigurationRecord).UnmarshalBinary C07
+//@ safe (*AVCSample).UnmarshalBinary C07 C12
